@@ -71,8 +71,9 @@ AREAS.append({
 (arguments not interpolated).""",
     "calls": {"Error::new": ("({0}, {1})", None)},
     "paths": {"ErrorKind::InvalidData": ('"InvalidData"', "String")},
-    "consts": [{"name": "FRAME_READ_CHUNK_SIZE"},
-               {"name": "DEFAULT_MAX_INBOUND_FRAME_SIZE", "file": "ractor_cluster/src/node.rs"}],
+    "consts": [{"name": "FRAME_READ_CHUNK_SIZE", "theorem": "C19.generated_frame_constants"},
+               {"name": "DEFAULT_MAX_INBOUND_FRAME_SIZE", "file": "ractor_cluster/src/node.rs",
+                "theorem": "C19.generated_frame_constants"}],
     "fns": [
         {"container": None, "name": "checked_frame_length", "theorem": "C19.generated_checked_frame_length_eq_model"},
     ],
@@ -93,7 +94,7 @@ AREAS.append({
 parameter `clock` (at most one reading per call).""",
     "types": {"Instant": "Nat", "Duration": "Nat"},
     "source_types": [{"name": "LeakyBucketRateLimiter"}],
-    "consts": [{"name": "MAX_LB_BALANCE"}],
+    "consts": [{"name": "MAX_LB_BALANCE", "theorem": "C15.generated_leaky_refresh_eq_model"}],
     "nondet": {"Instant::now()": ("clock", "Instant")},
     "calls": {"Duration::new": ("({0} * 1000000000 + {1})", "Duration")},
     "methods": [
@@ -134,7 +135,9 @@ the word arithmetic of each step. `MessageAdmission(self)` (the ticket) is `()`,
     "types": {"MessageAdmission": "Unit"},
     "source_types": [{"name": "ActorStatus", "file": "ractor/src/actor/actor_cell.rs"},
                      {"name": "ActorProperties", "fields": ["message_admission"]}],
-    "consts": [{"name": "MESSAGE_ADMISSION_CLOSED"}, {"name": "DRAIN_MARKER_SENT"}, {"name": "MESSAGE_ADMISSION_COUNT_MASK"}],
+    "consts": [{"name": "MESSAGE_ADMISSION_CLOSED", "theorem": "C07.generated_admission_constants"},
+               {"name": "DRAIN_MARKER_SENT", "theorem": "C07.generated_admission_constants"},
+               {"name": "MESSAGE_ADMISSION_COUNT_MASK", "theorem": "C07.generated_admission_constants"}],
     "calls": {"MessageAdmission": ("()", "MessageAdmission")},
     "nondet": {"self.message.send(MuxedMessage::Drain)": ("enqueue", "Result<()>")},
     "methods": [{"name": "get_status", "on": "ActorCell", "lean": "{0}.status", "ty": "ActorStatus"}],
